@@ -96,6 +96,9 @@ type Step struct {
 	Abs          bool   `json:"abs,omitempty"`
 	HashAlg      uint   `json:"hashAlg,omitempty"` // 0: first configured
 	Kid          string `json:"kid,omitempty"`
+	// members added to the signed payload by the raw builder when the honest payload does not have them: names of the
+	// protocol vocabulary that the operation type's signed data does not use ("$reveal" / "$suffix" stand for the request's values)
+	SignedExtra map[string]any `json:"signedExtra,omitempty"`
 	Replay       int    `json:"replay,omitempty"`   // n > 0: re-anchor the bytes of the n-th most recent operation this wallet authored for the DID
 	PadDelta     int    `json:"padDelta,omitempty"` // 1: pad the delta to exactly MaxDeltaSize (canonical bytes); 2: one byte below; 3: one byte above (invalid)
 	PadKind      int    `json:"padKind,omitempty"`  // which characters the padding contains (encoders disagree on the length of some)
